@@ -11,6 +11,7 @@ import SeataModel.Driver.C14
 import SeataModel.Driver.C15
 import SeataModel.Driver.C08
 import SeataModel.Driver.C06
+import SeataModel.Driver.C05
 
 open Seata.Driver
 
@@ -25,6 +26,7 @@ def dispatch (prop : String) (ws : List String) : String :=
   | "C15" => C15.handle ws
   | "C08" => C08.handle ws
   | "C06" => C06.handle ws
+  | "C05" => C05.handle ws
   | _ => "bad-prop"
 
 partial def loop (hin : IO.FS.Stream) (hout : IO.FS.Stream) : IO Unit := do
